@@ -1689,11 +1689,8 @@ func (p *Posix) CompleteMultipartUpload(ctx context.Context, input *s3.CompleteM
 		}
 	}
 	if p.versioningEnabled() && p.isBucketVersioningSuspended(vStatus) {
-		// the new object replaces the null version
-		err = p.deleteNullVersionIdObject(bucket, object)
-		if err != nil {
-			return nil, err
-		}
+		// the new object replaces the null version (the stored one is
+		// removed once the new object is published)
 		versionID = nullVersionId
 	}
 
@@ -1823,6 +1820,10 @@ func (p *Posix) CompleteMultipartUpload(ctx context.Context, input *s3.CompleteM
 	}
 	if err != nil {
 		return nil, fmt.Errorf("link object in namespace: %w", err)
+	}
+
+	if versionID == nullVersionId {
+		p.deleteNullVersionIdObject(bucket, object)
 	}
 
 	// cleanup tmp dirs
@@ -3048,14 +3049,11 @@ func (p *Posix) PutObject(ctx context.Context, po s3response.PutObjectInput) (s3
 		versionID = ulid.Make().String()
 	}
 
-	// Before finaliazing the object creation remove
-	// null versionId object from versioning directory
-	// if it exists and the versioning status is Suspended
+	// with suspended versioning the new object becomes the null version; the
+	// null version kept in the versioning directory is removed once the new
+	// object is published (removing it first would lose it when the upload
+	// does not complete)
 	if p.isBucketVersioningSuspended(vStatus) {
-		err = p.deleteNullVersionIdObject(*po.Bucket, *po.Key)
-		if err != nil {
-			return s3response.PutObjectOutput{}, err
-		}
 		versionID = nullVersionId
 	}
 
@@ -3177,6 +3175,10 @@ func (p *Posix) PutObject(ctx context.Context, po s3response.PutObjectInput) (s3
 	}
 	if err != nil {
 		return s3response.PutObjectOutput{}, s3err.GetAPIError(s3err.ErrExistingObjectIsDirectory)
+	}
+
+	if versionID == nullVersionId {
+		p.deleteNullVersionIdObject(*po.Bucket, *po.Key)
 	}
 
 	verifhook.At("posix.putobject.done")
